@@ -105,7 +105,61 @@ def drive_forest(rng, n):
                 pass
 
 
-DRIVERS = {"images": drive_images, "forest": drive_forest}
+def drive_rpms(rng, n):
+    """Random Rpms histories over larger pools than TLC enumerates: valid and invalid adds in every name spelling,
+    deleting variants, writing and reading back into the same or a new object."""
+    from productmd.rpms import Rpms
+    names = ["bash", "glibc-common", "java-1.8.0-openjdk", "lib3ds", "389-ds-base", "a", "x+y_z"]
+    evrs = ["0:4.3-1.fc22", "1:2.3-4.el7", "12:9.20~rc1-3", "0:1^git2-0.1", "7:0-0"]
+    barches = ["x86_64", "noarch", "i686", "armhfp", "s390x"]
+    tree_arches = ["x86_64", "ppc64le", "aarch64", "noarch", "src", "nosrc", "bogus", "X86_64", ""]
+    variants = ["Server", "Client", "Server-optional", "a"]
+    paths = ["Server/x86_64/os/Packages/b/pkg.rpm", "Packages/p.rpm", "p", "/abs/pkg.rpm", ""]
+    sigs = [None, "f5282ee4", "F5282EE4", "AbCd0123"]
+    cats = ["binary", "debug", "source", "package", ""]
+    for t in range(n):
+        m = Rpms()
+        m.compose.id, m.compose.type, m.compose.date, m.compose.respin = "Fedora-22-20150522.0", "production", "20150522", 0
+        for step in range(rng.randint(3, 30)):
+            x = rng.random()
+            try:
+                if x < 0.78:
+                    name, evr = rng.choice(names), rng.choice(evrs)
+                    src = "%s-%s.%s" % (name, evr, "src" if rng.random() < 0.85 else "nosrc")
+                    r = rng.random()
+                    if r < 0.55:
+                        sub = rng.choice(["", "-devel", "-debuginfo", "-libs"])
+                        nevra, cat, srpm = "%s%s-%s.%s" % (name, sub, evr, rng.choice(barches)), ("debug" if sub == "-debuginfo" else "binary"), src
+                    elif r < 0.8:
+                        nevra, cat, srpm = src, "source", None
+                    else:               # deliberately inconsistent
+                        nevra = rng.choice([src, "%s-%s.x86_64" % (name, evr), "%s-%s.x86_64" % (name, evr.split(":")[1]), "foo:bar", "nodash"])
+                        cat, srpm = rng.choice(cats), rng.choice([None, src, "junk"])
+                    spell = rng.random()
+                    if spell < 0.15:
+                        nevra += ".rpm"
+                    elif spell < 0.3:
+                        nevra = "Packages/%s/%s" % (name[0], nevra)
+                    elif spell < 0.4:
+                        nevra = "/mnt/koji/%s.rpm" % nevra
+                    if srpm and rng.random() < 0.15:
+                        srpm += ".rpm"
+                    arch = rng.choice(tree_arches[:4] if rng.random() < 0.8 else tree_arches)
+                    m.add(rng.choice(variants), arch, nevra, rng.choice(paths[:3] if rng.random() < 0.85 else paths), rng.choice(sigs),
+                          cat if rng.random() < 0.9 else rng.choice(cats), srpm)
+                elif x < 0.86:
+                    del m[rng.choice(variants)]
+                elif x < 0.93:
+                    m.loads(m.dumps())
+                else:
+                    m2 = Rpms()
+                    m2.loads(m.dumps())
+                    m = m2
+            except (ValueError, TypeError, KeyError):
+                pass
+
+
+DRIVERS = {"images": drive_images, "forest": drive_forest, "rpms": drive_rpms}
 
 if __name__ == "__main__":
     name, seed, n = sys.argv[1], int(sys.argv[2]), int(sys.argv[3])
